@@ -207,7 +207,12 @@ pub fn random_cfg(name: &str, rng: &mut Rng, vary: bool) -> Box<dyn CfgI> {
 			let text = if v.is_object() {
 				// an MA constructor: {"ema": 12}
 				let n = v.as_object().unwrap().values().next().unwrap().as_u64().unwrap();
-				let kind = rng.pick(MA_KINDS);
+				let mut kind = *rng.pick(MA_KINDS);
+				// Vidya's smoothing factor is a 0/0 on a series that is exactly constant: averages of DERIVED series (signal lines
+				// over oscillators that sit at an exact constant on plateaus) are fed noise there; keep vidya to the price-fed fields
+				if kind == "vidya" && !matches!(k.as_str(), "ma" | "ma1" | "method1") {
+					kind = "ema";
+				}
 				let nn = match rng.below(5) {
 					0 => n,
 					1 => (n / 2).max(2),
@@ -312,8 +317,14 @@ pub fn record(args: &[String]) {
 	let mut tw = TraceWriter::create(&args[4]);
 	let only = args.get(5).map(String::as_str);
 	let mut rng = Rng::new(seed ^ 0x1d1c);
+	// YV_EXCLUDE=Name,Name: indicators left out of this trace (an open known finding gets its own trace, so that it does not
+	// cut short the validation of the others)
+	let excluded: Vec<String> = std::env::var("YV_EXCLUDE").map(|v| v.split(',').map(str::to_string).collect()).unwrap_or_default();
 	for k in 0..programs {
 		let name = only.unwrap_or(NAMES[((k + seed) % NAMES.len() as u64) as usize]);
+		if excluded.iter().any(|x| x == name) {
+			continue;
+		}
 		let cfg = random_cfg(name, &mut rng, vary == 1 && k % 3 != 0);
 		let mut g = Gen::new(rng.u64(), true);
 		// a volume-based source makes zero-volume bars zero "prices": relative changes (ROC) are undefined on them
